@@ -131,6 +131,9 @@ struct Fx {
     sysname: Option<String>,
     mtime: Option<u128>,
     sys_expect: i64,
+    /// families of TZ values that are textual variants of one another (element 0 is the base);
+    /// kinds are `<family>:<variant>`
+    families: Vec<Vec<TzVal>>,
 }
 
 fn system_zone_name() -> Option<String> {
@@ -143,6 +146,92 @@ fn system_zone_name() -> Option<String> {
         }
     }
     std::fs::read_to_string("/etc/timezone").ok().map(|s| s.trim().to_string()).filter(|s| !s.is_empty())
+}
+
+/// Textual variants with (mostly) a different meaning: what a cache key computed from a normalised
+/// form of the TZ text (trimmed, case-folded, colon stripped, truncated, basename only …) would
+/// confuse.  Expectations are the property's table applied by hand.
+fn variant_families(cwd: &str, syn: &[(String, i32)], real: &[(&'static str, i64)], sys: i64) -> Vec<Vec<TzVal>> {
+    let mk = |s: String, kind: &'static str, e: Option<i64>| TzVal { v: Some(s.into_bytes()), kind, expect: e };
+    let mut fams = vec![];
+    // POSIX rules with distinctive offsets: (rule, offset, one digit shorter, its offset, west form)
+    for (r, off, short, short_off, west, kinds) in [
+        ("XYZ-7:13", 25980i64, "XYZ-7:1", 25260i64, "XYZ7:13",
+         ["vrule:plain", "vrule:colon", "vrule:lead-space", "vrule:trail-space", "vrule:lower-case", "vrule:digit-appended", "vrule:digit-dropped", "vrule:sign-dropped", "vrule:tab-newline"]),
+        ("QRS-4:47", 17220, "QRS-4:4", 14640, "QRS4:47",
+         ["vrule2:plain", "vrule2:colon", "vrule2:lead-space", "vrule2:trail-space", "vrule2:lower-case", "vrule2:digit-appended", "vrule2:digit-dropped", "vrule2:sign-dropped", "vrule2:tab-newline"]),
+    ] {
+        fams.push(vec![
+            mk(r.to_string(), kinds[0], Some(off)),
+            mk(format!(":{}", r), kinds[1], Some(sys)),            // forced file lookup, no such file
+            mk(format!(" {}", r), kinds[2], Some(off)),            // trimmed before rule reading: same zone
+            mk(format!("{} ", r), kinds[3], Some(off)),
+            mk(r.to_ascii_lowercase(), kinds[4], Some(off)),       // the name is arbitrary letters: same zone
+            mk(format!("{}0", r), kinds[5], None),                 // minutes 130 / 470: model comparison only
+            mk(short.to_string(), kinds[6], Some(short_off)),
+            mk(west.to_string(), kinds[7], Some(-off)),
+            mk(format!("\t{}\n", r), kinds[8], Some(off)),
+        ]);
+    }
+    // a zone name: white space and case are NOT ignored for the file lookup
+    if let Some((n, off)) = real.first() {
+        fams.push(vec![
+            mk(n.to_string(), "vname:plain", Some(*off)),
+            mk(format!(" {}", n), "vname:lead-space", Some(sys)),
+            mk(format!("{} ", n), "vname:trail-space", Some(sys)),
+            mk(n.to_ascii_lowercase(), "vname:lower-case", Some(sys)),
+            mk(n.to_ascii_uppercase(), "vname:upper-case", Some(sys)),
+            mk(format!(":{}", n), "vname:colon", Some(*off)),
+            mk(format!("{}/", n), "vname:slash-appended", Some(sys)),
+        ]);
+    }
+    // an absolute path
+    let (p0, o0) = (&syn[0].0, syn[0].1 as i64);
+    fams.push(vec![
+        mk(p0.clone(), "vpath:plain", Some(o0)),
+        mk(format!(" {}", p0), "vpath:lead-space", Some(sys)),
+        mk(format!("{} ", p0), "vpath:trail-space", Some(sys)),
+        mk(format!(":{}", p0), "vpath:colon", Some(o0)),
+        mk(format!(": {}", p0), "vpath:colon-space", Some(sys)),
+    ]);
+    // same basename in two directories (paths differ in the middle), with and without colon
+    let n = syn.len();
+    let ((pa, oa), (pb, ob)) = ((&syn[n - 2].0, syn[n - 2].1 as i64), (&syn[n - 1].0, syn[n - 1].1 as i64));
+    fams.push(vec![
+        mk(pa.clone(), "vtwin:a", Some(oa)),
+        mk(format!(":{}", pb), "vtwin:colon-b", Some(ob)),
+        mk(pb.clone(), "vtwin:b", Some(ob)),
+        mk(format!(":{}", pa), "vtwin:colon-a", Some(oa)),
+    ]);
+    // a path, the same path one character longer (another file), one character shorter (no file)
+    let ext = format!("{}0", p0);
+    let ext_off = 4 * 3600 + 3i64;
+    std::fs::write(&ext, tzif_v2(ext_off as i32, "SYX", &posix_fixed("SYX", ext_off as i32))).unwrap();
+    fams.push(vec![
+        mk(p0.clone(), "vext:plain", Some(o0)),
+        mk(ext, "vext:char-appended", Some(ext_off)),
+        mk(p0[..p0.len() - 1].to_string(), "vext:char-dropped", Some(sys)),
+    ]);
+    // names that differ in case only (skipped on a case-insensitive file system)
+    let (pu, pl) = (format!("{}/Case.tzif", cwd), format!("{}/case.tzif", cwd));
+    let (ou, ol) = (8 * 3600 + 9i64, -(8 * 3600 + 9i64));
+    std::fs::write(&pu, tzif_v2(ou as i32, "SYU", &posix_fixed("SYU", ou as i32))).unwrap();
+    std::fs::write(&pl, tzif_v2(ol as i32, "SYL", &posix_fixed("SYL", ol as i32))).unwrap();
+    if std::fs::read(&pu).ok() == Some(tzif_v2(ou as i32, "SYU", &posix_fixed("SYU", ou as i32))) {
+        fams.push(vec![mk(pu, "vcase:upper", Some(ou)), mk(pl, "vcase:lower", Some(ol))]);
+    }
+    // empty / unset / one space (all three mean different things; on a machine whose system zone
+    // is UTC they give the same offset, so only the model comparison of the branch sees them)
+    fams.push(vec![
+        mk(String::new(), "vempty:empty", Some(0)),
+        TzVal { v: None, kind: "vempty:unset", expect: Some(sys) },
+        mk(" ".to_string(), "vempty:space", None),
+    ]);
+    fams
+}
+
+fn family_of(kind: &str) -> Option<&str> {
+    if kind.starts_with('v') { kind.split_once(':').map(|x| x.0) } else { None }
 }
 
 fn fixtures() -> Fx {
@@ -212,7 +301,8 @@ fn fixtures() -> Fx {
     let read_off = |p: &str| std::fs::read(p).ok().and_then(|b| vt::from_tzif(&b).ok()).map(|z| dg1(&z));
     let named = sysname.as_ref().and_then(|n| read_off(&format!("{}/{}", TZDB, n)));
     let sys_expect = read_off(LOCALTIME).or(named).unwrap_or(0);
-    Fx { syn, bad, dir, real, rules, sysname, mtime, sys_expect }
+    let families = variant_families(&cwd, &syn, &real, sys_expect);
+    Fx { syn, bad, dir, real, rules, sysname, mtime, sys_expect, families }
 }
 
 impl Fx {
@@ -258,6 +348,9 @@ impl Fx {
         for b in &self.bad {
             p.push(mk(b.clone(), "bad-file", Some(self.sys_expect)));
             p.push(mk(format!(":{}", b), "colon-bad-file", Some(self.sys_expect)));
+        }
+        for f in &self.families {
+            p.extend(f.iter().cloned());
         }
         p.push(mk(self.dir.clone(), "directory", Some(self.sys_expect)));
         p.push(mk(format!(":{}", self.dir), "colon-directory", Some(self.sys_expect)));
@@ -513,11 +606,16 @@ fn judge(c: &mut Ctx, fx: &Fx, steps: &[St], evs: &[Ev], tag: &str) {
     let mut named_so_far: Option<Vec<i64>> = Some(vec![fx.sys_expect]);
     // the TZ token under which each thread's cache was last (re)built or re-checked
     let mut fresh_tok: BTreeMap<usize, String> = BTreeMap::new();
+    // kind of the value under which each thread's cache was last (re)built, and of the value that
+    // was current before the last change of TZ: for the variant-pair counters
+    let mut fresh_kind: BTreeMap<usize, &'static str> = BTreeMap::new();
+    let mut before_change: Option<&'static str> = None;
     let mut prev_mid: Option<u64> = None;
     let mut ei = 0;
     for (i, s) in steps.iter().enumerate() {
         match s {
             St::Set(v) => {
+                before_change = cur.map(|x| x.kind);
                 cur = Some(v);
                 toks.push(format!("S{}", v.tok()));
                 named_so_far = match (named_so_far, v.expect) {
@@ -532,6 +630,7 @@ fn judge(c: &mut Ctx, fx: &Fx, steps: &[St], evs: &[Ev], tag: &str) {
             St::Spawn(t) => {
                 tracks.remove(t);
                 fresh_tok.remove(t);
+                fresh_kind.remove(t);
                 toks.push(format!("T{}", t));
             }
             St::Conv(t, l) => {
@@ -610,6 +709,25 @@ fn judge(c: &mut Ctx, fx: &Fx, steps: &[St], evs: &[Ev], tag: &str) {
                 }
                 if cls == 'n' || cls == 'f' {
                     fresh_tok.insert(*t, tok_now);
+                }
+                // variant pairs: a judged refresh whose cache was built under a textual variant of
+                // the current value, or a new thread right after a change between variants
+                if let Some(v) = cur {
+                    if let Some(fam) = family_of(v.kind) {
+                        let from = if cls == 'f' { fresh_kind.get(t).copied() } else if cls == 'n' { before_change } else { None };
+                        if let Some(from) = from {
+                            if family_of(from) == Some(fam) && from != v.kind {
+                                let how = if cls == 'f' { "same-thread>=1s" } else { "new-thread" };
+                                c.count(&format!("{}.variant.{}.{}=>{}", tag, how, from, v.kind.split_once(':').map(|x| x.1).unwrap_or("")));
+                                c.count(&format!("{}.variant-pairs.{}", tag, how));
+                            }
+                        }
+                    }
+                    if cls == 'n' || cls == 'f' {
+                        fresh_kind.insert(*t, v.kind);
+                    }
+                } else if cls == 'n' || cls == 'f' {
+                    fresh_kind.remove(t);
                 }
                 if e.res == "panic" || e.res == "thread-died" {
                     c.fail("C18 conversion panicked", &format!("history [{}] step {}", encode(steps), i));
@@ -701,6 +819,83 @@ fn gen_timed(c: &mut Ctx, fx: &Fx, k: usize) -> Vec<St> {
             steps
         }
     }
+}
+
+/// a history that switches between two textual variants `x` -> `y`
+fn variant_history(c: &mut Ctx, x: &TzVal, y: &TzVal, shape: usize, timed: bool) -> Vec<St> {
+    use St::*;
+    let l = |c: &mut Ctx| c.rng.chance(1, 2);
+    let (x, y) = (x.clone(), y.clone());
+    if !timed {
+        // no sleeping: the old thread keeps its cache, new threads see each value at once
+        return vec![Set(x.clone()), Conv(0, l(c)), Set(y.clone()), Spawn(1), Conv(1, l(c)), Conv(0, l(c)), Set(x), Spawn(2), Conv(2, l(c)), Conv(1, l(c))];
+    }
+    match shape % 3 {
+        // honoured >= 1 s later on the same thread, and at once on a fresh thread
+        0 => vec![Set(x), Conv(0, l(c)), Set(y), Wait(1100), Conv(0, l(c)), Spawn(1), Conv(1, l(c))],
+        // x -> y -> x on one thread
+        1 => vec![Set(x.clone()), Conv(0, l(c)), Set(y), Wait(1100), Conv(0, l(c)), Set(x), Wait(1100), Conv(0, l(c))],
+        // a second thread built under x, re-checked under y; then the first thread is new under y
+        _ => vec![Set(x), Spawn(1), Conv(1, l(c)), Set(y), Wait(1100), Conv(1, l(c)), Conv(0, l(c))],
+    }
+}
+
+/// all ordered (base, variant) pairs, plus all pairs of the small families
+fn variant_pairs(fx: &Fx) -> Vec<(TzVal, TzVal)> {
+    let mut out = vec![];
+    for f in &fx.families {
+        if f.len() <= 4 {
+            for a in f {
+                for b in f {
+                    if a.kind != b.kind {
+                        out.push((a.clone(), b.clone()));
+                    }
+                }
+            }
+        } else {
+            for b in &f[1..] {
+                out.push((f[0].clone(), b.clone()));
+                out.push((b.clone(), f[0].clone()));
+            }
+        }
+    }
+    out
+}
+
+/// a random history whose TZ values all come from one family of variants
+fn gen_family_history(c: &mut Ctx, fx: &Fx, timed: bool) -> Vec<St> {
+    use St::*;
+    let fam = &fx.families[c.rng.below(fx.families.len() as u64) as usize];
+    let mut steps = vec![Set(pickv(c, fam).clone()), Conv(0, c.rng.chance(1, 2))];
+    let mut threads = 1usize;
+    let mut n = 2;
+    while n < 6 {
+        match c.rng.below(6) {
+            0 | 1 => {
+                steps.push(Set(pickv(c, fam).clone()));
+                if timed {
+                    steps.push(Wait(*c.rng.pick(&[1100u64, 1100, 150])));
+                }
+                steps.push(Conv(c.rng.below(threads as u64) as usize, c.rng.chance(1, 2)));
+                n += 2;
+            }
+            2 => {
+                steps.push(Set(pickv(c, fam).clone()));
+                steps.push(Spawn(threads));
+                steps.push(Conv(threads, c.rng.chance(1, 2)));
+                threads += 1;
+                n += 3;
+            }
+            _ => {
+                if timed && c.rng.chance(1, 2) {
+                    steps.push(Wait(*c.rng.pick(&[150u64, 600, 1100])));
+                }
+                steps.push(Conv(c.rng.below(threads as u64) as usize, c.rng.chance(1, 2)));
+                n += 1;
+            }
+        }
+    }
+    steps
 }
 
 /// histories without waits, run in this process
@@ -1010,6 +1205,23 @@ pub fn run(c: &mut Ctx) {
         c.count("fast.histories");
         judge(c, &fx, &h, &evs, "fast");
     }
+    // textual variants with a different meaning, without sleeping: every ordered pair, then random
+    // histories inside one family
+    let vpairs = variant_pairs(&fx);
+    for rep in 0..c.n(1, 6) {
+        for (x, y) in &vpairs {
+            let h = variant_history(c, x, y, rep, false);
+            let evs = exec_history(&h);
+            c.count("fast.variant-histories");
+            judge(c, &fx, &h, &evs, "fast");
+        }
+    }
+    for _ in 0..c.n(150, 3000) {
+        let h = gen_family_history(c, &fx, false);
+        let evs = exec_history(&h);
+        c.count("fast.family-histories");
+        judge(c, &fx, &h, &evs, "fast");
+    }
     std::env::remove_var("TZ");
 
     // ---- 3b. direction and routing of the public conversions (mod.rs): what `Local` answers on a
@@ -1019,9 +1231,21 @@ pub fn run(c: &mut Ctx) {
     std::env::remove_var("TZ");
 
     // ---- 4. timed histories in child processes --------------------------------------------------
-    let n = c.n(28, 400);
-    let hists: Vec<Vec<St>> = (0..n).map(|k| gen_timed(c, &fx, k)).collect();
-    let par = c.n(28, 50);
+    let n = c.n(28, 168);
+    let mut hists: Vec<Vec<St>> = (0..n).map(|k| gen_timed(c, &fx, k)).collect();
+    // every ordered pair of textual variants: the change must be honoured >= 1 s later on the same
+    // thread and at once on a fresh thread (quick: shape 0; thorough: all three shapes)
+    for shape in 0..c.n(1, 3) {
+        for (x, y) in &vpairs {
+            hists.push(variant_history(c, x, y, shape, true));
+            c.count("timed.variant-histories");
+        }
+    }
+    for _ in 0..c.n(6, 120) {
+        hists.push(gen_family_history(c, &fx, true));
+        c.count("timed.family-histories");
+    }
+    let par = c.n(128, 64);
     run_children(c, &fx, hists, par);
     let _ = std::fs::remove_dir_all(std::env::current_dir().unwrap().join("c18fx"));
 }
